@@ -499,7 +499,7 @@ func checkC08(c *Ctx) (string, bool, []string) {
 			}
 		}
 		// small values and digit strings longer than 19
-		for _, ds := range []string{"0", "1", "2", "10", "007", "99999999999999999999", "18446744073709551616", "9223372036854775807", "9223372036854775808"} {
+		for _, ds := range []string{"0", "1", "2", "10", "007", "99999999999999999999", "18446744073709551616", "9223372036854775807", "9223372036854775808", "9223372036854775809", "92233720368547758085", "92233720368547758079", "922337203685477580", "010", "0100", "030", "09", "00008"} {
 			for _, neg := range []bool{false, true} {
 				grid = append(grid, c08case{neg, []durComp{{ds, u}}})
 			}
